@@ -44,6 +44,11 @@ def rule_R05_1(ctx):
         r.inst("%s: %s" % (f.path, what))
         if f.module.startswith(bmod) and not f.generated:
             r.ok()
+        elif f.root_fn().path not in anchors.evaluation_reach(prog):
+            # set-up code (registering builtins/type functions before the
+            # first statement runs): no operation of a script can reach it
+            r.inst("%s: not reachable from evaluation (set-up code)" % f.path)
+            r.ok()
         else:
             r.fail("%s | mutable container access" % f.root_fn().path,
                    "%s obtains a mutable view of a list/object cell (%s); "
